@@ -46,6 +46,8 @@ Definition max_allocs_to_ignore : Z := 16.
 
 (* Go: PassContext.checkCounters *)
 Definition check_counters (p : pass) (bytes : Z) : pass * counter :=
+  (* no further relocation fits into this pass *)
+  if p_max_allocs p <=? ps_allocs_moved (p_stats p) then (p, CEnd) else
   if ps_bytes_moved (p_stats p) + bytes >? p_max_bytes p then
     let p' := set_ignored p (p_ignored p + 1) in
     if p_ignored p' <? max_allocs_to_ignore then (p', CIgnore) else (p', CEnd)
